@@ -7,7 +7,8 @@ feature names and the product of every monomial.  TLC enumerates the cases (boun
 state per case), checks the design facts on the oracle itself (the monomials are exactly the multisets,
 binomial counts, the complete-homogeneous-polynomial identity, key bijectivity, dense/mapping agreement) and
 prints every case.  The driver converts each case to Python values, calls the real
-InteractionsEncoder(terms).encode(...) - twice on the same encoder - and compares.  Every case is replayed
+InteractionsEncoder(terms).encode(...) - twice on the same encoder, and once more on an encoder object that
+lives across cases (so it has served dense, sparse and string-valued inputs before) - and compares.  Every case is replayed
 with plain ints in list / dict containers and a second time in another rendering of the same abstract input
 (prime p fed as the float p/2, tuple / LazyDense / HashableDense, LazySparse / HashableSparse)."""
 import json, re, collections.abc
@@ -118,8 +119,9 @@ def check_sparse(out, monos, const):
     return None
 
 
-def replay(case, rend, Enc):
-    """Returns None or (signature, what)."""
+def replay(case, rend, Enc, shared=None):
+    """Returns None or (signature, what).  `shared`: {terms: encoder} of encoder objects that live across cases - the same
+    object then serves dense, sparse and string-valued inputs in turn, and must answer each as a fresh encoder does."""
     half, seqk, mapk = rend
     terms = py_terms(case["terms"])
     kw = {n: py_ns(case[n], half, seqk, mapk) for n in ("x", "a") if case[n]["t"] != "absent"}
@@ -142,6 +144,18 @@ def replay(case, rend, Enc):
         return sig, "%s: %s" % (describe(case, rend), what)
     same = (dict(out2) == dict(out)) if isinstance(out, collections.abc.Mapping) else (not isinstance(out2, collections.abc.Mapping) and list(out2) == list(out))
     if not same: return "encode:not-repeatable", "%s: second call on the same encoder returned %r, first %r" % (describe(case, rend), out2, out)
+    if shared is not None:
+        tk = json.dumps(terms)
+        try:
+            if tk not in shared: shared[tk] = Enc(terms)
+            out3 = shared[tk].encode(**kw)
+        except Exception as e:
+            shared.pop(tk, None)
+            return "encode:depends-on-earlier-calls", "%s raised %s: %s on an encoder that had served other inputs before (a fresh one answers %r)" % (describe(case, rend), type(e).__name__, str(e)[:100], out)
+        same = (isinstance(out3, collections.abc.Mapping) and dict(out3) == dict(out)) if isinstance(out, collections.abc.Mapping) else (not isinstance(out3, collections.abc.Mapping) and list(out3) == list(out))
+        if not same:
+            shared.pop(tk, None)
+            return "encode:depends-on-earlier-calls", "%s: an encoder that had served other inputs before returned %r, a fresh one %r" % (describe(case, rend), out3, out)
     return None
 
 
@@ -176,15 +190,17 @@ def run(ctx):
         cases.sort(key=lambda c: json.dumps([c["terms"], c["x"], c["a"]], sort_keys=True))
         ctx.sample(dict(call=describe(cases[len(cases) // 3], (False, "list", "dict")), expected_form=cases[len(cases) // 3]["mode"],
                         dense=cases[len(cases) // 3]["dense"], mapping=cases[len(cases) // 3]["sparse"][:6]), limit=4)
+        shared = {}
         for c in cases:
             n += 1
+            if len(shared) > 64: shared.clear()
             key = "%s|%s|%s" % (",".join(map(str, py_terms(c["terms"]))), short(c["x"]), short(c["a"]))
             ctx.case(key)
             hit[c["mode"]] += 1; nmono += len(c["sparse"] or [])
             k = n + ctx.seed
             rends = [(False, "list", "dict"), (True, SEQ_KINDS[1 + k % 3], MAP_KINDS[1 + k % 2])]
             for rend in rends:
-                bad = replay(c, rend, InteractionsEncoder)
+                bad = replay(c, rend, InteractionsEncoder, shared)
                 total += 1
                 if bad:
                     ctx.violation(bad[0], bad[1], dict(terms=c["terms"], x=c["x"], a=c["a"], expected=dict(mode=c["mode"], const=c["const"], dense=c["dense"], sparse=c["sparse"]), rendering=list(rend)))
